@@ -55,7 +55,7 @@ func (r *Rng) Intn(n int) int {
 	}
 	return int(r.U64() % uint64(n))
 }
-func (r *Rng) Range(lo, hi int) int { return lo + r.Intn(hi-lo+1) } // inclusive
+func (r *Rng) Range(lo, hi int) int     { return lo + r.Intn(hi-lo+1) } // inclusive
 func (r *Rng) Chance(num, den int) bool { return r.Intn(den) < num }
 
 // Decision is what a released task is told.
@@ -145,12 +145,12 @@ func NewSim(seed uint64, policy Policy) *Sim {
 	}
 }
 
-func (s *Sim) Steps() int                { return s.steps }
-func (s *Sim) Fired() map[string]int     { return s.fired }
-func (s *Sim) FiredAt() []string         { return s.firedAt }
-func (s *Sim) LogHash() uint64           { return H(s.sigHash, fmt.Sprint(s.multiHash)) }
-func (s *Sim) LogText() []string         { return s.logText }
-func (s *Sim) ChoicePoints() int         { return s.choicePts }
+func (s *Sim) Steps() int                    { return s.steps }
+func (s *Sim) Fired() map[string]int         { return s.fired }
+func (s *Sim) FiredAt() []string             { return s.firedAt }
+func (s *Sim) LogHash() uint64               { return H(s.sigHash, fmt.Sprint(s.multiHash)) }
+func (s *Sim) LogText() []string             { return s.logText }
+func (s *Sim) ChoicePoints() int             { return s.choicePts }
 func (s *Sim) VirtualElapsed() time.Duration { return time.Since(s.start) }
 
 // logf records an event. The event-log hash is built from (a) an ordered hash chain over the
